@@ -18,10 +18,11 @@ from .vloop import VLoop, installed
 
 
 class VTask:
-    __slots__ = ("name", "idx", "inp", "fut", "exc", "tid", "seq")
+    __slots__ = ("name", "idx", "inp", "fut", "exc", "tid", "seq", "afut")
 
     def __init__(self, name, idx, inp, fut, exc, tid, seq):
         self.name, self.idx, self.inp, self.fut, self.exc, self.tid, self.seq = name, idx, inp, fut, exc, tid, seq
+        self.afut = None
 
 
 import re
@@ -55,8 +56,9 @@ class VirtualExecutor(DagExecutor):
 
     HORIZON = 20000
 
-    def __init__(self, world, chooser=None, overlay=True, parallel=False, batch_size=None, fault=None, **kwargs):
+    def __init__(self, world, chooser=None, overlay=True, parallel=False, batch_size=None, fault=None, real_futures=None, **kwargs):
         super().__init__(**kwargs)
+        self.real_futures = real_futures  # None | 'threads' | 'processes': use cubed's own create-futures functions over a held pool
         self.world = world
         self.chooser = chooser
         self.overlay = overlay
@@ -137,6 +139,75 @@ class VirtualExecutor(DagExecutor):
             return out
 
         self._name_of = {}
+        if self.real_futures:
+            import concurrent.futures as cf
+            from cubed.runtime.executors import local as _local
+
+            ex_self = self
+
+            class HeldPool:
+                """stands in for the Thread/ProcessPoolExecutor: runs the submitted callable at once (reads at
+                submission, writes into the task's overlay) and hands back a pending concurrent Future that the
+                explorer completes later"""
+
+                def _op_name(self, k):
+                    import cloudpickle
+                    nm, cfgv = k.get("name"), k.get("config")
+                    key = hash(cfgv) if isinstance(cfgv, bytes) else id(cfgv)
+                    if isinstance(nm, bytes):
+                        nm = cloudpickle.loads(nm)
+                    if nm is None:
+                        nm = ex_self._name_of.get(key, "?")
+                    else:
+                        ex_self._name_of[key] = nm
+                    return nm
+
+                def submit(self, fn, *a, **k):
+                    fut = cf.Future()
+                    seq = len(ex_self.submitted)
+                    opn = self._op_name(k)
+                    tid = (opn, seq)
+                    op_order.setdefault("task", 0)
+                    w.cur = tid
+                    old_overlay = w.overlay_mode
+                    w.overlay_mode = ex_self.overlay
+                    res = exc = None
+                    try:
+                        res = fn(*a, **k)
+                    except Exception as e:  # noqa
+                        exc = e
+                    finally:
+                        w.cur = None
+                        w.overlay_mode = old_overlay
+                    t = VTask("task", seq, None, fut, exc, tid, seq)
+                    t.inp = res
+                    ex_self.submitted.append((opn, seq))
+                    pending.append(t)
+                    return fut
+
+            pool = HeldPool()
+            import asyncio as _asyncio
+
+            class LocalAsyncioShim:
+                """records which asyncio future wraps which held concurrent future (for canonical wait() ordering)"""
+
+                def __getattr__(self, n):
+                    return getattr(_asyncio, n)
+
+                def wrap_future(self, f, *, loop=None):
+                    af = _asyncio.wrap_future(f, loop=loop)
+                    for t in pending:
+                        if t.fut is f:
+                            ex_self._by_fut[af] = t
+                            t.afut = af
+                    return af
+
+            self._saved_local_asyncio = _local.asyncio
+            _local.asyncio = LocalAsyncioShim()
+            if self.real_futures == "processes":
+                cff = _local.processes_create_futures_func(pool, _local.run_func_processes)
+            else:
+                cff = _local.threads_create_futures_func(pool, _local.run_func_threads, 0)
         kw = {}
         if self.batch_size is not None:
             kw["batch_size"] = self.batch_size
@@ -167,14 +238,18 @@ class VirtualExecutor(DagExecutor):
                         c = 0
                     t = pend[c]
                     pending.remove(t)
-                    self._rank[t.fut] = len(self._rank)
+                    self._rank[t.afut if t.afut is not None else t.fut] = len(self._rank)
                     w.flush(t.tid)
-                    self.completed.append((t.name, t.idx))
+                    self.completed.append(t.tid if self.real_futures else (t.name, t.idx))
                     if t.exc is not None:
                         t.fut.set_exception(t.exc)
+                    elif self.real_futures:
+                        t.fut.set_result(t.inp)  # what cubed's own run function returned: (result, stats)
                     else:
                         t.fut.set_result((None, dict(function_start_tstamp=0.0, function_end_tstamp=0.0)))
             finally:
+                if self.real_futures:
+                    _local.asyncio = self._saved_local_asyncio
                 if not task.done():
                     task.cancel()
                     with contextlib.suppress(BaseException):
